@@ -25,8 +25,13 @@ def log(*a):
     print("[verif]", *a, flush=True)
 
 
+# scratch of one invocation: run/<id>/<tier>[-<VERIF_RUN_TAG>]/..., so that a quick and a thorough run of the same
+# property (or two tagged runs) can be in flight at once
+RUN_SUB = "quick"
+
+
 def rundir(pid, *sub):
-    d = os.path.join(RUN, pid, *sub)
+    d = os.path.join(RUN, pid, RUN_SUB, *sub)
     os.makedirs(d, exist_ok=True)
     return d
 
